@@ -140,6 +140,7 @@ pub fn run(tier: &str, seed: u64, kf: &Kf) -> Back {
                 .iter()
                 .map(|(p, text)| {
                     sc.spawn(move || {
+                        let _slot = crate::compile::compile_slot();
                         let o = Command::new("g++").args(["-std=c++17", "-fsyntax-only", "-I/repo/pdl-compiler/scripts", "-x", "c++"]).arg(p).output();
                         match o {
                             Ok(o) if o.status.success() => (text.clone(), Ok(())),
@@ -183,6 +184,7 @@ pub fn run(tier: &str, seed: u64, kf: &Kf) -> Back {
                 .map(|(pkg, text)| {
                     let jdir = jdir.clone();
                     sc.spawn(move || {
+                        let _slot = crate::compile::compile_slot();
                         let files: Vec<_> = std::fs::read_dir(jdir.join(pkg)).map(|rd| rd.flatten().map(|e| e.path()).filter(|p| p.extension().map(|x| x == "java").unwrap_or(false)).collect()).unwrap_or_default();
                         let o = Command::new("javac").arg("-d").arg(jdir.join("out")).arg("-nowarn").args(&files).output();
                         match o {
